@@ -233,6 +233,58 @@ def assume(fs, cond, pol, uns=()):
 PURE = ('htp_is_', 'isxdigit', 'isdigit', 'tolower', 'toupper', 'isspace', 'isalnum', 'isalpha', 'x2c', 'bstr_util_mem_index_of', 'memchr', 'memcmp', 'strlen')
 
 
+_DB = [None]          # fact base of the function being analysed (set by solve); None = no interprocedural effects known
+
+
+def field_effects(db, callee):
+    """record fields that a call to `callee` may store to, transitively (None = anything: unknown callee kind or indirect call)"""
+    if callee is None:
+        return None
+    cache = db.__dict__.setdefault('_field_effects', {})
+    if not cache:
+        direct, calls = {}, {}
+        for n, f in db.fn.items():
+            w, cs, unknown = set(), set(), False
+            for b, i, st in f.stmts():
+                for y in nodes(st):
+                    if y['k'] == 'assign' or (y['k'] == 'un' and y['op'] in ('++', '--', '++post', '--post')):
+                        l = strip(y.get('l') if y['k'] == 'assign' else y['e'])
+                        while l is not None and l.get('k') in ('index',):
+                            l = strip(l['base'])
+                        if l is not None and l.get('k') == 'member':
+                            w.add(l['field'])
+                        elif l is not None and l.get('k') == 'un' and l['op'] == '*':
+                            w.add('*')
+                    elif y['k'] == 'call':
+                        if y.get('callee'):
+                            cs.add(y['callee'])
+                        else:
+                            unknown = True
+            direct[n] = None if unknown else w
+            calls[n] = cs
+        ch = True
+        eff = dict(direct)
+        while ch:
+            ch = False
+            for n in eff:
+                if eff[n] is None:
+                    continue
+                for c in calls[n]:
+                    if c in eff:
+                        if eff[c] is None:
+                            eff[n] = None
+                            ch = True
+                            break
+                        if not eff[c] <= eff[n]:
+                            eff[n] = eff[n] | eff[c]
+                            ch = True
+        cache.update(eff)
+        cache['#done'] = True
+    if callee in cache:
+        return cache[callee]
+    return set()          # external (libc, zlib): stores only through its pointer arguments, handled by the caller
+
+
 def _assign(fs, t, tnode, rt, uns):
     """t := rt  (rt = (key, const) or None)"""
     unsigned = t in uns or _uns(tnode)
@@ -293,8 +345,26 @@ def transfer(fs, st, on_index=None, uns=()):
                     if t:
                         fs.forget(t[0])
             if not (x.get('callee') or '').startswith(PURE):
-                # a call may write anything reachable through pointers
-                for p in [p for p in fs.b if '->' in p[0] or '->' in p[1] or p[0].startswith('*') or p[1].startswith('*')]:
+                # a call may write what is reachable through pointers: with the fact base at hand, only the record fields the
+                # callee (transitively) stores to, plus whatever hangs off a pointer argument of an external function
+                wf = field_effects(_DB[0], x.get('callee')) if _DB[0] is not None else None
+                roots = set()
+                if wf is not None and x.get('callee') not in _DB[0].fn:
+                    for a in x['args']:
+                        a0 = strip(a)
+                        while a0 is not None and a0.get('k') in ('member', 'index', 'bin', 'un', 'cast'):
+                            a0 = strip(a0.get('base') or a0.get('l') or a0.get('e'))
+                        if a0 is not None and a0.get('k') == 'var' and '*' in (strip(a) or {}).get('t', '*') and 'const ' not in (strip(a) or {}).get('t', ''):
+                            roots.add(a0['name'])
+
+                def hit(t):
+                    if not ('->' in t or t.startswith('*') or '.' in t):
+                        return False
+                    if wf is None:
+                        return True
+                    fld = re.split(r'->|\.', t)[-1].rstrip(')')
+                    return fld in wf or t.startswith('*') or re.split(r'->|\.|\[', t.lstrip('(*'))[0] in roots
+                for p in [p for p in fs.b if hit(p[0]) or hit(p[1])]:
                     del fs.b[p]
         elif k == 'decl':
             for v in x['vars']:
@@ -414,6 +484,7 @@ def solve(fn, db=None):
     function's flag locals (so that `if (!handled)` is decided per value of `handled`)."""
     live = C.reachable(fn, fn.entry)
     uns = unsigned_terms(fn)
+    _DB[0] = db
     split = {b for b in live if fn.blocks[b].get('term', {}).get('kind') == 'SwitchStmt' and len(fn.preds.get(b, [])) > 1}
     flags = flag_locals(fn)
 
